@@ -165,13 +165,55 @@ def o_channels(prog, lines):
         t = l.split()
         if len(t) >= 4 and t[0] == "obj" and t[2] == "chan":
             caps[t[1]] = None if t[3] == "unb" else (0 if t[3] == "rdv" else int(t[3].split(":")[1]))
+    TX, RX = ("send", "try_send", "drop_tx"), ("recv", "try_recv", "drop_rx")
+    plain = {k: not any(o[0] in ("if", "scope_begin", "block_on") or o[0].startswith("f") for o in ops) for k, ops in P["bodies"].items()}
+    uses_tx = {k: {o[1] for o in ops if o[0] in TX and len(o) > 1} for k, ops in P["bodies"].items()}
     for e in executions(lines):
         sent = {c: [] for c in caps}
         recvd = {c: [] for c in caps}
+        recv_disc, send_disc, rx_dropped = set(), set(), set()
+        # bodies that may still hold a Sender (over-approximation: a spawned body that uses one is assumed to get one)
+        holders = {c: {0} for c in caps}
+        last_pc, body_of, ended = {}, {}, set()
+        rx_holder = {c: 0 for c in caps}        # the harness's ownership rule: the Receiver moves to a spawned body that uses it
+        # (the deadlock report itself is a panic, raised after the last decision: only earlier panics count)
+        last_d = max([i for i, l in enumerate(e["lines"]) if l.startswith("D ")], default=-1)
+        panicked = any((l == "P panic" and i < last_d) or l.endswith(" panicking") for i, l in enumerate(e["lines"]))
         for tid, k, pc, name, args, res in _ops(P, e):
-            if pc is None or not args or args[0] not in caps:
+            body_of[tid] = k
+            if pc is None:
+                if name in ("end", "dropped"):
+                    ended.add(tid)
+                    for c in caps:
+                        holders[c].discard(k)
+                        if rx_holder[c] == k:
+                            rx_dropped.add(c)           # the body that owned the Receiver is over: it has been dropped
+                continue
+            last_pc[tid] = pc
+            if name in ("spawn", "scope_spawn", "fspawn") and args and args[0].isdigit():
+                for c in caps:
+                    if c in uses_tx.get(int(args[0]), ()):
+                        holders[c].add(int(args[0]))
+                    kid_ops = P["bodies"].get(int(args[0]), [])
+                    rest = P["bodies"].get(k, [])[pc + 1:]
+                    if (rx_holder[c] == k and any(o[0] in RX and o[1:2] == [c] for o in kid_ops)
+                            and not any(o[0] in RX and o[1:2] == [c] for o in rest)):
+                        rx_holder[c] = int(args[0])
+            if not args or args[0] not in caps:
                 continue
             c = args[0]
+            if name in TX and res == "ok" and c in recv_disc:
+                bad.append((f"channel {c}: the receiver was told `Disconnected` although a sender was still alive (it completed `{name}` afterwards)", "C06:false-disconnect-recv"))
+            if name in RX and res != "norecv" and c in send_disc and not (name == "drop_rx" and res != "ok"):
+                bad.append((f"channel {c}: a sender was told `Disconnected` although the receiver was still alive (`{name}` afterwards)", "C06:false-disconnect-send"))
+            if name in ("recv", "try_recv") and res == "err:disconnected":
+                recv_disc.add(c)
+            if name in ("send", "try_send") and res == "err:disconnected":
+                send_disc.add(c)
+            if name == "drop_rx" and res == "ok":
+                rx_dropped.add(c)
+            if name == "drop_tx" and res == "ok":
+                holders[c].discard(k)
             if name in ("send", "try_send") and res == "ok":
                 sent[c].append(int(args[1]))
                 cap = caps[c]
@@ -190,7 +232,22 @@ def o_channels(prog, lines):
             elif name in ("recv", "try_recv") and res == "err:disconnected":
                 if len(recvd[c]) < len(sent[c]):
                     bad.append((f"channel {c}: disconnection reported with {len(sent[c]) - len(recvd[c])} message(s) still undelivered", "C06:disconnect-before-drain"))
-        # at a normal end nothing is lost: every message was received or its receiver is gone — only a count check
+        # a deadlock must not contain a task blocked on a channel whose other side is gone
+        end = e["end"] or ""
+        if end.startswith("E fail deadlock! blocked tasks: [") and not panicked:
+            for tid in (int(m) for m in re.findall(r"\(task [^()]*\((\d+)\)", end)):
+                k = body_of.get(tid, 0 if tid == 0 else None)
+                if k is None or not plain.get(k):
+                    continue
+                ops = P["bodies"].get(k, [])
+                nxt = last_pc.get(tid, -1) + 1
+                if nxt >= len(ops) or len(ops[nxt]) < 2 or ops[nxt][1] not in caps:
+                    continue
+                c = ops[nxt][1]
+                if ops[nxt][0] == "send" and c in rx_dropped:
+                    bad.append((f"deadlock: task {tid} is still blocked in `send {c}` although the receiver of {c} has been dropped", "C06:stranded-sender"))
+                if ops[nxt][0] == "recv" and not (holders[c] - {k}) and k not in holders[c]:
+                    bad.append((f"deadlock: task {tid} is still blocked in `recv {c}` although every sender of {c} is gone", "C06:stranded-receiver"))
     return bad
 
 
